@@ -118,6 +118,28 @@ def classify(rec):
     return 'tool'
 
 
+class _Done:
+    def __init__(self, rc, out, err):
+        self.returncode, self.stdout, self.stderr = rc, out, err
+
+
+def _run_limited(cmd, limit):
+    """Run verus in its own process group; on a wall-clock time-out kill the whole group (verus and
+    its z3) and return None."""
+    import signal
+    pr = subprocess.Popen(cmd, stdout=subprocess.PIPE, stderr=subprocess.PIPE, text=True, cwd=GEN, start_new_session=True)
+    try:
+        out, err = pr.communicate(timeout=limit)
+    except subprocess.TimeoutExpired:
+        try:
+            os.killpg(pr.pid, signal.SIGKILL)
+        except Exception:
+            pass
+        pr.communicate()
+        return None
+    return _Done(pr.returncode, out, err)
+
+
 def run(unit, tier='quick', use_cache=True, repo=REPO, rlimit=None, extra_args=()):
     """Generate + verify one unit.  Returns a result dict; never raises on verification failure."""
     t0 = time.time()
@@ -145,7 +167,13 @@ def run(unit, tier='quick', use_cache=True, repo=REPO, rlimit=None, extra_args=(
     elif unit_rlimit:
         cmd += ['--rlimit', unit_rlimit.group(1)]
     res['checker_cmd'] = ' '.join(cmd)
-    p = subprocess.run(cmd, capture_output=True, text=True, cwd=GEN)
+    # wall-clock limit: --rlimit does not bound every query (nonlinear arithmetic can run away on a
+    # changed function); a runaway solver is "undecided" (exit 2), never an alarm
+    limit = int(os.environ.get('VERIF_VERUS_TIMEOUT', '900' if tier == 'quick' else '2400'))
+    p = _run_limited(cmd, limit)
+    if p is None:
+        res.update(status='resource', detail='verus did not finish unit %s within %d s (solver time-out: undecided)' % (unit, limit), wall_s=time.time() - t0)
+        return res
     try:
         j = json.loads(p.stdout)
     except Exception:
@@ -215,8 +243,9 @@ def run_canaries(unit, tier='quick', repo=REPO):
             r = json.load(f)
         r['cached'] = True
         return r
-    p = subprocess.run(['verus', path, '--output-json', '--multiple-errors', '50'],
-                       capture_output=True, text=True, cwd=GEN)
+    p = _run_limited(['verus', path, '--output-json', '--multiple-errors', '50'], 900)
+    if p is None:
+        return {'status': 'resource', 'detail': 'canary run of %s timed out' % unit, 'wall_s': time.time() - t0}
     lines = text.split('\n')
     want = {}
     for i, l in enumerate(lines):
